@@ -824,132 +824,133 @@ class NNDescent:
         self._original_num_threads = numba.get_num_threads()
         if self.n_jobs != -1 and self.n_jobs is not None:
             numba.set_num_threads(self.n_jobs)
+        try:
 
-        if isspmatrix_csr(self._raw_data):
+            if isspmatrix_csr(self._raw_data):
 
-            self._is_sparse = True
+                self._is_sparse = True
 
-            if not self._raw_data.has_sorted_indices:
-                self._raw_data.sort_indices()
+                if not self._raw_data.has_sorted_indices:
+                    self._raw_data.sort_indices()
 
-            if metric in sparse.sparse_named_distances:
-                if metric in sparse.sparse_fast_distance_alternatives:
-                    _distance_func = sparse.sparse_fast_distance_alternatives[metric][
-                        "dist"
-                    ]
-                    self._distance_correction = (
-                        sparse.sparse_fast_distance_alternatives[metric]["correction"]
-                    )
+                if metric in sparse.sparse_named_distances:
+                    if metric in sparse.sparse_fast_distance_alternatives:
+                        _distance_func = sparse.sparse_fast_distance_alternatives[metric][
+                            "dist"
+                        ]
+                        self._distance_correction = (
+                            sparse.sparse_fast_distance_alternatives[metric]["correction"]
+                        )
+                    else:
+                        _distance_func = sparse.sparse_named_distances[metric]
+                elif callable(metric):
+                    _distance_func = metric
                 else:
-                    _distance_func = sparse.sparse_named_distances[metric]
-            elif callable(metric):
-                _distance_func = metric
-            else:
-                raise ValueError(
-                    "Metric {} not supported for sparse data".format(metric)
-                )
-
-            if metric in sparse.sparse_need_n_features:
-                metric_kwds["n_features"] = self._raw_data.shape[1]
-            self._dist_args = tuple(metric_kwds.values())
-
-            # Create a partial function for distances with arguments
-            if len(self._dist_args) > 0:
-
-                dist_args = self._dist_args
-
-                @numba.njit()
-                def _partial_dist_func(ind1, data1, ind2, data2):
-                    return _distance_func(ind1, data1, ind2, data2, *dist_args)
-
-                self._distance_func = _partial_dist_func
-            else:
-                self._distance_func = _distance_func
-
-            if init_graph is None:
-                _init_graph = EMPTY_GRAPH
-            else:
-                if init_graph.shape[0] != self._raw_data.shape[0]:
-                    raise ValueError("Init graph size does not match dataset size!")
-                _init_graph = make_heap(init_graph.shape[0], self.n_neighbors)
-                _init_graph = sparse_initalize_heap_from_graph_indices(
-                    _init_graph,
-                    init_graph,
-                    self._raw_data.indptr,
-                    self._raw_data.indices,
-                    self._raw_data.data,
-                    self._distance_func,
-                )
-
-            if verbose:
-                print(ts(), "metric NN descent for", str(n_iters), "iterations")
-
-            self._neighbor_graph = sparse_nnd.nn_descent(
-                self._raw_data.indices,
-                self._raw_data.indptr,
-                self._raw_data.data,
-                self.n_neighbors,
-                self.rng_state,
-                max_candidates=effective_max_candidates,
-                dist=self._distance_func,
-                n_iters=self.n_iters,
-                delta=self.delta,
-                rp_tree_init=True,
-                leaf_array=leaf_array,
-                init_graph=_init_graph,
-                low_memory=self.low_memory,
-                verbose=verbose,
-            )
-
-        else:
-
-            self._is_sparse = False
-
-            if init_graph is None:
-                _init_graph = EMPTY_GRAPH
-            else:
-                if init_graph.shape[0] != self._raw_data.shape[0]:
-                    raise ValueError("Init graph size does not match dataset size!")
-                _init_graph = make_heap(init_graph.shape[0], self.n_neighbors)
-                if init_dist is None:
-                    _init_graph = initalize_heap_from_graph_indices(
-                        _init_graph, init_graph, data, self._distance_func
-                    )
-                elif init_graph.shape != init_dist.shape:
                     raise ValueError(
-                        "The shapes of init graph and init distances do not match!"
+                        "Metric {} not supported for sparse data".format(metric)
                     )
+
+                if metric in sparse.sparse_need_n_features:
+                    metric_kwds["n_features"] = self._raw_data.shape[1]
+                self._dist_args = tuple(metric_kwds.values())
+
+                # Create a partial function for distances with arguments
+                if len(self._dist_args) > 0:
+
+                    dist_args = self._dist_args
+
+                    @numba.njit()
+                    def _partial_dist_func(ind1, data1, ind2, data2):
+                        return _distance_func(ind1, data1, ind2, data2, *dist_args)
+
+                    self._distance_func = _partial_dist_func
                 else:
-                    _init_graph = initalize_heap_from_graph_indices_and_distances(
-                        _init_graph, init_graph, init_dist
+                    self._distance_func = _distance_func
+
+                if init_graph is None:
+                    _init_graph = EMPTY_GRAPH
+                else:
+                    if init_graph.shape[0] != self._raw_data.shape[0]:
+                        raise ValueError("Init graph size does not match dataset size!")
+                    _init_graph = make_heap(init_graph.shape[0], self.n_neighbors)
+                    _init_graph = sparse_initalize_heap_from_graph_indices(
+                        _init_graph,
+                        init_graph,
+                        self._raw_data.indptr,
+                        self._raw_data.indices,
+                        self._raw_data.data,
+                        self._distance_func,
                     )
 
-            if verbose:
-                print(ts(), "NN descent for", str(n_iters), "iterations")
+                if verbose:
+                    print(ts(), "metric NN descent for", str(n_iters), "iterations")
 
-            self._neighbor_graph = nn_descent(
-                self._raw_data,
-                self.n_neighbors,
-                self.rng_state,
-                effective_max_candidates,
-                self._distance_func,
-                self.n_iters,
-                self.delta,
-                low_memory=self.low_memory,
-                rp_tree_init=True,
-                init_graph=_init_graph,
-                leaf_array=leaf_array,
-                verbose=verbose,
-            )
+                self._neighbor_graph = sparse_nnd.nn_descent(
+                    self._raw_data.indices,
+                    self._raw_data.indptr,
+                    self._raw_data.data,
+                    self.n_neighbors,
+                    self.rng_state,
+                    max_candidates=effective_max_candidates,
+                    dist=self._distance_func,
+                    n_iters=self.n_iters,
+                    delta=self.delta,
+                    rp_tree_init=True,
+                    leaf_array=leaf_array,
+                    init_graph=_init_graph,
+                    low_memory=self.low_memory,
+                    verbose=verbose,
+                )
 
-        if np.any(self._neighbor_graph[0] < 0):
-            warn(
-                "Failed to correctly find n_neighbors for some samples."
-                " Results may be less than ideal. Try re-running with"
-                " different parameters."
-            )
+            else:
 
-        numba.set_num_threads(self._original_num_threads)
+                self._is_sparse = False
+
+                if init_graph is None:
+                    _init_graph = EMPTY_GRAPH
+                else:
+                    if init_graph.shape[0] != self._raw_data.shape[0]:
+                        raise ValueError("Init graph size does not match dataset size!")
+                    _init_graph = make_heap(init_graph.shape[0], self.n_neighbors)
+                    if init_dist is None:
+                        _init_graph = initalize_heap_from_graph_indices(
+                            _init_graph, init_graph, data, self._distance_func
+                        )
+                    elif init_graph.shape != init_dist.shape:
+                        raise ValueError(
+                            "The shapes of init graph and init distances do not match!"
+                        )
+                    else:
+                        _init_graph = initalize_heap_from_graph_indices_and_distances(
+                            _init_graph, init_graph, init_dist
+                        )
+
+                if verbose:
+                    print(ts(), "NN descent for", str(n_iters), "iterations")
+
+                self._neighbor_graph = nn_descent(
+                    self._raw_data,
+                    self.n_neighbors,
+                    self.rng_state,
+                    effective_max_candidates,
+                    self._distance_func,
+                    self.n_iters,
+                    self.delta,
+                    low_memory=self.low_memory,
+                    rp_tree_init=True,
+                    init_graph=_init_graph,
+                    leaf_array=leaf_array,
+                    verbose=verbose,
+                )
+
+            if np.any(self._neighbor_graph[0] < 0):
+                warn(
+                    "Failed to correctly find n_neighbors for some samples."
+                    " Results may be less than ideal. Try re-running with"
+                    " different parameters."
+                )
+        finally:
+            numba.set_num_threads(self._original_num_threads)
 
     def _set_distance_func(self):
         if callable(self.metric):
@@ -1013,220 +1014,221 @@ class NNDescent:
         self._original_num_threads = numba.get_num_threads()
         if self.n_jobs != -1 and self.n_jobs is not None:
             numba.set_num_threads(self.n_jobs)
+        try:
 
-        if not hasattr(self, "_search_forest"):
-            if self._rp_forest is None:
-                if self.tree_init:
-                    # We don't have a forest, so make a small search forest
-                    current_random_state = check_random_state(self.random_state)
-                    rp_forest = make_forest(
-                        self._raw_data,
-                        self.n_neighbors,
-                        self.n_search_trees,
-                        self.leaf_size,
-                        self.rng_state,
-                        current_random_state,
-                        self.n_jobs,
-                        self._angular_trees,
-                        max_depth=self.max_rptree_depth,
-                    )
+            if not hasattr(self, "_search_forest"):
+                if self._rp_forest is None:
+                    if self.tree_init:
+                        # We don't have a forest, so make a small search forest
+                        current_random_state = check_random_state(self.random_state)
+                        rp_forest = make_forest(
+                            self._raw_data,
+                            self.n_neighbors,
+                            self.n_search_trees,
+                            self.leaf_size,
+                            self.rng_state,
+                            current_random_state,
+                            self.n_jobs,
+                            self._angular_trees,
+                            max_depth=self.max_rptree_depth,
+                        )
+                        self._search_forest = [
+                            convert_tree_format(
+                                tree, self._raw_data.shape[0], self._raw_data.shape[1]
+                            )
+                            for tree in rp_forest
+                        ]
+                    else:
+                        self._search_forest = []
+                else:
+                    # convert the best trees into a search forest
+                    tree_scores = [
+                        score_linked_tree(tree, self._neighbor_graph[0])
+                        for tree in self._rp_forest
+                    ]
+                    if self.verbose:
+                        print(ts(), "Worst tree score: {:.8f}".format(np.min(tree_scores)))
+                        print(ts(), "Mean tree score: {:.8f}".format(np.mean(tree_scores)))
+                        print(ts(), "Best tree score: {:.8f}".format(np.max(tree_scores)))
+                    best_tree_indices = np.argsort(tree_scores)[: self.n_search_trees]
+                    best_trees = [self._rp_forest[idx] for idx in best_tree_indices]
+                    del self._rp_forest
                     self._search_forest = [
                         convert_tree_format(
                             tree, self._raw_data.shape[0], self._raw_data.shape[1]
                         )
-                        for tree in rp_forest
+                        for tree in best_trees
                     ]
-                else:
-                    self._search_forest = []
-            else:
-                # convert the best trees into a search forest
-                tree_scores = [
-                    score_linked_tree(tree, self._neighbor_graph[0])
-                    for tree in self._rp_forest
-                ]
-                if self.verbose:
-                    print(ts(), "Worst tree score: {:.8f}".format(np.min(tree_scores)))
-                    print(ts(), "Mean tree score: {:.8f}".format(np.mean(tree_scores)))
-                    print(ts(), "Best tree score: {:.8f}".format(np.max(tree_scores)))
-                best_tree_indices = np.argsort(tree_scores)[: self.n_search_trees]
-                best_trees = [self._rp_forest[idx] for idx in best_tree_indices]
-                del self._rp_forest
-                self._search_forest = [
-                    convert_tree_format(
-                        tree, self._raw_data.shape[0], self._raw_data.shape[1]
+
+            nnz_pre_diversify = np.sum(self._neighbor_graph[0] >= 0)
+            if self._is_sparse:
+                if self.compressed:
+                    diversified_rows, diversified_data = sparse.diversify(
+                        self._neighbor_graph[0],
+                        self._neighbor_graph[1],
+                        self._raw_data.indices,
+                        self._raw_data.indptr,
+                        self._raw_data.data,
+                        self._distance_func,
+                        self.rng_state,
+                        self.diversify_prob,
                     )
-                    for tree in best_trees
-                ]
+                else:
+                    diversified_rows, diversified_data = sparse.diversify(
+                        self._neighbor_graph[0].copy(),
+                        self._neighbor_graph[1].copy(),
+                        self._raw_data.indices,
+                        self._raw_data.indptr,
+                        self._raw_data.data,
+                        self._distance_func,
+                        self.rng_state,
+                        self.diversify_prob,
+                    )
+            else:
+                if self.compressed:
+                    diversified_rows, diversified_data = diversify(
+                        self._neighbor_graph[0],
+                        self._neighbor_graph[1],
+                        self._raw_data,
+                        self._distance_func,
+                        self.rng_state,
+                        self.diversify_prob,
+                    )
+                else:
+                    diversified_rows, diversified_data = diversify(
+                        self._neighbor_graph[0].copy(),
+                        self._neighbor_graph[1].copy(),
+                        self._raw_data,
+                        self._distance_func,
+                        self.rng_state,
+                        self.diversify_prob,
+                    )
 
-        nnz_pre_diversify = np.sum(self._neighbor_graph[0] >= 0)
-        if self._is_sparse:
-            if self.compressed:
-                diversified_rows, diversified_data = sparse.diversify(
-                    self._neighbor_graph[0],
-                    self._neighbor_graph[1],
-                    self._raw_data.indices,
+            self._search_graph = coo_matrix(
+                (self._raw_data.shape[0], self._raw_data.shape[0]), dtype=np.float32
+            )
+
+            # Preserve any distance 0 points
+            diversified_data[diversified_data <= 0.0] = FLOAT32_EPS
+
+            self._search_graph.row = np.repeat(
+                np.arange(diversified_rows.shape[0], dtype=np.int32),
+                diversified_rows.shape[1],
+            )
+            self._search_graph.col = diversified_rows.ravel()
+            self._search_graph.data = diversified_data.ravel()
+
+            # Get rid of any -1 index entries
+            self._search_graph = self._search_graph.tocsr()
+            self._search_graph.data[self._search_graph.indices == -1] = 0.0
+            self._search_graph.eliminate_zeros()
+
+            if self.verbose:
+                print(
+                    ts(),
+                    "Forward diversification reduced edges from {} to {}".format(
+                        nnz_pre_diversify, self._search_graph.nnz
+                    ),
+                )
+
+            # Reverse graph
+            pre_reverse_diversify_nnz = self._search_graph.nnz
+            reverse_graph = self._search_graph.transpose()
+            if self._is_sparse:
+                sparse.diversify_csr(
+                    reverse_graph.indptr,
+                    reverse_graph.indices,
+                    reverse_graph.data,
                     self._raw_data.indptr,
+                    self._raw_data.indices,
                     self._raw_data.data,
                     self._distance_func,
                     self.rng_state,
                     self.diversify_prob,
                 )
             else:
-                diversified_rows, diversified_data = sparse.diversify(
-                    self._neighbor_graph[0].copy(),
-                    self._neighbor_graph[1].copy(),
-                    self._raw_data.indices,
-                    self._raw_data.indptr,
-                    self._raw_data.data,
-                    self._distance_func,
-                    self.rng_state,
-                    self.diversify_prob,
-                )
-        else:
-            if self.compressed:
-                diversified_rows, diversified_data = diversify(
-                    self._neighbor_graph[0],
-                    self._neighbor_graph[1],
+                diversify_csr(
+                    reverse_graph.indptr,
+                    reverse_graph.indices,
+                    reverse_graph.data,
                     self._raw_data,
                     self._distance_func,
                     self.rng_state,
                     self.diversify_prob,
                 )
-            else:
-                diversified_rows, diversified_data = diversify(
-                    self._neighbor_graph[0].copy(),
-                    self._neighbor_graph[1].copy(),
-                    self._raw_data,
-                    self._distance_func,
-                    self.rng_state,
-                    self.diversify_prob,
+            reverse_graph.eliminate_zeros()
+
+            if self.verbose:
+                print(
+                    ts(),
+                    "Reverse diversification reduced edges from {} to {}".format(
+                        pre_reverse_diversify_nnz, reverse_graph.nnz
+                    ),
                 )
-
-        self._search_graph = coo_matrix(
-            (self._raw_data.shape[0], self._raw_data.shape[0]), dtype=np.float32
-        )
-
-        # Preserve any distance 0 points
-        diversified_data[diversified_data <= 0.0] = FLOAT32_EPS
-
-        self._search_graph.row = np.repeat(
-            np.arange(diversified_rows.shape[0], dtype=np.int32),
-            diversified_rows.shape[1],
-        )
-        self._search_graph.col = diversified_rows.ravel()
-        self._search_graph.data = diversified_data.ravel()
-
-        # Get rid of any -1 index entries
-        self._search_graph = self._search_graph.tocsr()
-        self._search_graph.data[self._search_graph.indices == -1] = 0.0
-        self._search_graph.eliminate_zeros()
-
-        if self.verbose:
-            print(
-                ts(),
-                "Forward diversification reduced edges from {} to {}".format(
-                    nnz_pre_diversify, self._search_graph.nnz
-                ),
-            )
-
-        # Reverse graph
-        pre_reverse_diversify_nnz = self._search_graph.nnz
-        reverse_graph = self._search_graph.transpose()
-        if self._is_sparse:
-            sparse.diversify_csr(
-                reverse_graph.indptr,
-                reverse_graph.indices,
-                reverse_graph.data,
-                self._raw_data.indptr,
-                self._raw_data.indices,
-                self._raw_data.data,
-                self._distance_func,
-                self.rng_state,
-                self.diversify_prob,
-            )
-        else:
-            diversify_csr(
-                reverse_graph.indptr,
-                reverse_graph.indices,
-                reverse_graph.data,
-                self._raw_data,
-                self._distance_func,
-                self.rng_state,
-                self.diversify_prob,
-            )
-        reverse_graph.eliminate_zeros()
-
-        if self.verbose:
-            print(
-                ts(),
-                "Reverse diversification reduced edges from {} to {}".format(
-                    pre_reverse_diversify_nnz, reverse_graph.nnz
-                ),
-            )
-        reverse_graph = reverse_graph.tocsr()
-        reverse_graph.sort_indices()
-        self._search_graph = self._search_graph.tocsr()
-        self._search_graph.sort_indices()
-        self._search_graph = self._search_graph.maximum(reverse_graph).tocsr()
-
-        # Eliminate the diagonal
-        self._search_graph.setdiag(0.0)
-        self._search_graph.eliminate_zeros()
-
-        pre_prune_nnz = self._search_graph.nnz
-        self._search_graph = degree_prune(
-            self._search_graph,
-            int(np.round(self.prune_degree_multiplier * self.n_neighbors)),
-        )
-        self._search_graph.eliminate_zeros()
-        self._search_graph = (self._search_graph != 0).astype(np.uint8)
-
-        if self.verbose:
-            print(
-                ts(),
-                "Degree pruning reduced edges from {} to {}".format(
-                    pre_prune_nnz, self._search_graph.nnz
-                ),
-            )
-
-        self._visited = np.zeros(
-            (self._raw_data.shape[0] // 8) + 1, dtype=np.uint8, order="C"
-        )
-
-        # reorder according to the search tree leaf order
-        if self.verbose:
-            print(ts(), "Resorting data and graph based on tree order")
-
-        if self.tree_init:
-            self._vertex_order = self._search_forest[0].indices
-            row_ordered_graph = self._search_graph[self._vertex_order, :].tocsc()
-            self._search_graph = row_ordered_graph[:, self._vertex_order]
+            reverse_graph = reverse_graph.tocsr()
+            reverse_graph.sort_indices()
             self._search_graph = self._search_graph.tocsr()
             self._search_graph.sort_indices()
+            self._search_graph = self._search_graph.maximum(reverse_graph).tocsr()
 
-            if self._is_sparse:
-                self._raw_data = self._raw_data[self._vertex_order, :]
-            else:
-                self._raw_data = np.ascontiguousarray(
-                    self._raw_data[self._vertex_order, :]
+            # Eliminate the diagonal
+            self._search_graph.setdiag(0.0)
+            self._search_graph.eliminate_zeros()
+
+            pre_prune_nnz = self._search_graph.nnz
+            self._search_graph = degree_prune(
+                self._search_graph,
+                int(np.round(self.prune_degree_multiplier * self.n_neighbors)),
+            )
+            self._search_graph.eliminate_zeros()
+            self._search_graph = (self._search_graph != 0).astype(np.uint8)
+
+            if self.verbose:
+                print(
+                    ts(),
+                    "Degree pruning reduced edges from {} to {}".format(
+                        pre_prune_nnz, self._search_graph.nnz
+                    ),
                 )
 
-            tree_order = np.argsort(self._vertex_order)
-            self._search_forest = tuple(
-                resort_tree_indices(tree, tree_order)
-                for tree in self._search_forest[: self.n_search_trees]
+            self._visited = np.zeros(
+                (self._raw_data.shape[0] // 8) + 1, dtype=np.uint8, order="C"
             )
-        else:
-            self._vertex_order = np.arange(self._raw_data.shape[0])
 
-        if self.compressed:
+            # reorder according to the search tree leaf order
             if self.verbose:
-                print(ts(), "Compressing index by removing unneeded attributes")
-            if hasattr(self, "_rp_forest"):
-                del self._rp_forest
-            del self._neighbor_graph
+                print(ts(), "Resorting data and graph based on tree order")
 
-        numba.set_num_threads(self._original_num_threads)
+            if self.tree_init:
+                self._vertex_order = self._search_forest[0].indices
+                row_ordered_graph = self._search_graph[self._vertex_order, :].tocsc()
+                self._search_graph = row_ordered_graph[:, self._vertex_order]
+                self._search_graph = self._search_graph.tocsr()
+                self._search_graph.sort_indices()
+
+                if self._is_sparse:
+                    self._raw_data = self._raw_data[self._vertex_order, :]
+                else:
+                    self._raw_data = np.ascontiguousarray(
+                        self._raw_data[self._vertex_order, :]
+                    )
+
+                tree_order = np.argsort(self._vertex_order)
+                self._search_forest = tuple(
+                    resort_tree_indices(tree, tree_order)
+                    for tree in self._search_forest[: self.n_search_trees]
+                )
+            else:
+                self._vertex_order = np.arange(self._raw_data.shape[0])
+
+            if self.compressed:
+                if self.verbose:
+                    print(ts(), "Compressing index by removing unneeded attributes")
+                if hasattr(self, "_rp_forest"):
+                    del self._rp_forest
+                del self._neighbor_graph
+        finally:
+            numba.set_num_threads(self._original_num_threads)
 
     def _init_search_function(self):
 
